@@ -77,7 +77,24 @@ def verify_function(src, con, models, axioms=(), prefix=None, prune=True):
     meta = {"requires": [str(eng.clause_formula(cl))[:200] for _, cl in con.requires(c0)]}
     # vacuity guard: requires satisfiable
     try:
-        results = eng.exec_block(fd.body, st)
+        if eng.has_seq_decorators(fd):
+            # the decorated method: the real wrappers of sequence/_decorators.py around the real body
+            from .core import Closure
+            inner = Closure(fd, {}, None)
+            inner.file = con.file
+            inner.fname = fd.name
+            deco = eng.decorated(fd, inner)
+            a = fd.args
+            pos = [args[x.arg] for x in a.posonlyargs + a.args]
+            kws = {x.arg: args[x.arg] for x in a.kwonlyargs}
+            if a.vararg is not None:
+                from .calls import StarArg
+                pos = pos + [StarArg(args[a.vararg.arg])]
+            results = []
+            for v, s1 in eng.call(deco, pos, kws, st, fd):
+                results.append((RAISE, v, s1) if isinstance(v, Exc) else (RET, v, s1))
+        else:
+            results = eng.exec_block(fd.body, st)
     except OutOfSubset as ex:
         return dict(obligations=[], paths=0, error=str(ex), meta=meta)
     npaths = 0
@@ -192,8 +209,11 @@ def discharge(ob, timeout_ms=10000, want_model=True):
     for h, n in zip(ob.hyps, names):
         if not z3.is_quantifier(h) or n is None or kw in n or "bridge" in n or "append-only" in n or n in ("valid_channel", "spec-def"):
             sliced.append(h)
-    ladder = [("full", ob.hyps, min(4000, timeout_ms), 0), ("quantifier-free-hyps", qf, timeout_ms, 0), ("sliced", sliced, timeout_ms, 0),
-              ("full-long", ob.hyps, 3 * timeout_ms, 0), ("seed7", ob.hyps, 3 * timeout_ms, 7)]
+    t = timeout_ms
+    ladder = [("full", ob.hyps, min(3000, t), 0), ("quantifier-free-hyps", qf, min(6000, t), 0), ("sliced", sliced, min(6000, t), 0),
+              ("full-long", ob.hyps, int(1.5 * t), 0)]
+    if t > 10000:
+        ladder.append(("seed7", ob.hyps, 2 * t, 7))
     tried, total = [], 0.0
     r, s = z3.unknown, None
     full_sat = None
